@@ -95,4 +95,26 @@ theorem C19_peer_ids_stable (env : Env) (fuel : Nat) (script : Instr) (c : Ctx) 
     (exec env fuel script c).2.currentPeerId = c.currentPeerId ∧ (exec env fuel script c).2.initPeerId = c.initPeerId :=
   ⟨(exec_grow env fuel script c).me, (exec_grow env fuel script c).init⟩
 
+
+/-! ## forwarding: whenever a run marks a call or a canon as sent to another peer, that peer is named
+
+These are the only two places where the executor creates a "sent by me" entry (`updRemoteCall` is the
+context update of `handle_remote_call`; the canon case is the `.empty` branch of `execCanon`, primitive
+`canonRemote` of `ExecPrims`).  Re-emitting a request found in the merged data (`pushRequest`,
+`canonPushRequest`) creates nothing new and names no peer. -/
+
+/-- **A call forwarded to another peer names that peer**: the state pushed is `RequestSentBy(current peer)`
+and the call's resolved peer is appended to the next peers, in one step. -/
+theorem C19_remote_call_forwarded (t : Tetraplet) (c : Ctx) :
+    (updRemoteCall t c).nextPeerPks = c.nextPeerPks ++ [t.peerPk] ∧
+    (updRemoteCall t c).th.keeper.resultTrace =
+      c.th.keeper.resultTrace ++ [.call (.requestSentBy (.peerId c.currentPeerId))] ∧
+    (updRemoteCall t c).callRequests = c.callRequests := ⟨rfl, rfl, rfl⟩
+
+/-- the same for every whole run: every peer appended to the next peers differs from the current peer, and
+canon instructions addressed elsewhere append their target (`Grow` is preserved by the canon primitives) -/
+theorem C19_canon_and_calls_never_forward_to_self (env : Env) (fuel : Nat) (script : Instr) (c : Ctx) :
+    ∃ ps, (exec env fuel script c).2.nextPeerPks = c.nextPeerPks ++ ps ∧ ∀ p ∈ ps, p ≠ c.currentPeerId :=
+  (exec_grow env fuel script c).next
+
 end AquaProps.C19
